@@ -74,6 +74,56 @@ theorem asLoop_false_iff_nodup (hops : List IA) (hz : (0, 0) ∉ hops) :
     have := asDupFrom_zero_of_nodup [] hops h (by simp)
     simp [this]
 
+/-! ### `filterIsdLoop`: an ISD is re-entered after having been left -/
+
+/-- the ISD sequence with consecutive repetitions merged (`last` = the ISD of the previous hop) -/
+def runsFrom (last : Nat) : List Nat → List Nat
+  | [] => []
+  | a :: t => if a = last then runsFrom last t else a :: runsFrom a t
+
+theorem isdDupFrom_zero_iff (seen : List Nat) (last : Nat) (hops : List IA)
+    (h0 : ∀ ia ∈ hops, ia.isd ≠ 0) :
+    isdDupFrom seen last hops = 0 ↔
+      (runsFrom last (hops.map IA.isd)).Nodup ∧
+      ∀ x ∈ runsFrom last (hops.map IA.isd), x ∉ seen := by
+  induction hops generalizing seen last with
+  | nil => simp [isdDupFrom, runsFrom]
+  | cons ia t ih =>
+    have h0t : ∀ ia ∈ t, ia.isd ≠ 0 := fun x hx => h0 x (by simp [hx])
+    have hia : ia.isd ≠ 0 := h0 ia (by simp)
+    unfold isdDupFrom
+    simp only [List.map_cons, runsFrom]
+    by_cases hl : last = ia.isd
+    · rw [if_pos hl, if_pos hl.symm]
+      exact ih seen last h0t
+    · have hl' : ¬ ia.isd = last := fun e => hl e.symm
+      rw [if_neg hl, if_neg hl']
+      by_cases hs : seen.contains ia.isd = true
+      · rw [if_pos hs]
+        constructor
+        · intro h; exact absurd h hia
+        · rintro ⟨_, hdis⟩
+          exact absurd (by simpa using hs) (hdis ia.isd (by simp))
+      · rw [if_neg hs]
+        have hns : ia.isd ∉ seen := by simpa using hs
+        rw [ih (ia.isd :: seen) ia.isd h0t]
+        simp only [List.nodup_cons, List.mem_cons, not_or, forall_eq_or_imp]
+        constructor
+        · rintro ⟨hnd, hdis⟩
+          exact ⟨⟨fun hm => (hdis _ hm).1 rfl, hnd⟩, hns, fun x hx => (hdis x hx).2⟩
+        · rintro ⟨⟨hni, hnd⟩, _, hdis⟩
+          exact ⟨hnd, fun x hx => ⟨fun e => hni (e ▸ hx), hdis x hx⟩⟩
+
+/-- for hop lists without ISD 0: `filterIsdLoop` reports a loop iff, after merging consecutive
+hops of the same ISD, some ISD occurs twice — i.e. an ISD is re-entered after having been left -/
+theorem isdLoop_false_iff (hops : List IA) (h0 : ∀ ia ∈ hops, ia.isd ≠ 0) :
+    isdLoop hops = false ↔ (runsFrom 0 (hops.map IA.isd)).Nodup := by
+  unfold isdLoop
+  have := isdDupFrom_zero_iff [] 0 hops h0
+  simp only [List.not_mem_nil, not_false_eq_true, implies_true, and_true] at this
+  rw [← this]
+  simp
+
 /-! ### usage and pre-filter -/
 
 theorem filter_not_length_eq_iff (ps : Policies) (hops : List IA) :
